@@ -218,3 +218,20 @@ PROPS["C35"] = dict(
     text="Decides the reproducibility and scope clauses of the JSON documentation export: no exported list carries hash-iteration "
          "order, and each top-level list is filtered to the main workspace.",
     note="'Exactly once' and completeness of the documentation are not decided.")
+
+PROPS["C29"] = dict(
+    module="c29c30", func="run_c29", level="other", crates=["emmylua_ls", "emmylua_code_analysis"],
+    technique="CFG must-precede / must-pass-through on the reload functions + held-lock analysis at the reload call",
+    text="Decides three ordering facts without which a reload overwrites editor text or two reloads interleave: disk batch "
+         "filtered by and applied before the open files; apply_workspace_reload only under reload_lock after the generation test "
+         "and from a single caller; reconciliation after init_analysis on every path with the snapshot taken before, loop exit only "
+         "on an unchanged snapshot version.",
+    note="Convergence under interleavings of notifications with the reload (the version loop against concurrent sync/close) is a "
+         "scheduling property and is not decided.")
+PROPS["C30"] = dict(
+    module="c29c30", func="run_c30", level="other", crates=["emmylua_ls", "emmylua_code_analysis"],
+    technique="siblings cross-check: forward CFG reachability from every removal call to the diagnostics-clear call (or to the caller receiving the removed uris)",
+    text="Decides the second sentence of the property: every place where the server removes a file from the analysis reaches "
+         "clear_push_file_diagnostics for it. The majority discipline (6 of 8 sites) defines the rule; the deviants are reported.",
+    note="The first sentence (latest published set equals a fresh diagnosis once debounce timers settle) is timing/interleaving "
+         "dependent and is not decided.")
